@@ -9,6 +9,7 @@ The tidytcells standardiser `f col cell` is external and arbitrary here.
 import Prs.Proofs.Cleaning
 import Prs.Generated.Constants
 import Prs.Proofs.Merge
+import Prs.Proofs.MergeFold
 namespace Prs
 
 /-- total: for ANY object the predicates return a Boolean, never an exception -/
@@ -174,6 +175,30 @@ theorem C18_multimerge_cells (outer : Bool) (sfx : Option (List (List Char))) (t
   rw [hsplit] at hk hwf ⊢
   exact mergeTables_cell outer pre post t k j hwf hk hj
 
+/-! the code computes the join as a left fold of pairwise `pd.merge` calls (`multimergeFold`): for `outer` and `inner` that fold IS the
+direct description above (the pairwise joins are associative on uniquely keyed tables), so any regrouping of the fold is harmless
+there — and only there: -/
+
+/-- `reduce(merge(how="outer"))` = the outer join of all tables -/
+theorem C18_multimerge_fold_outer (ts : List (KTable K V)) (hne : ts ≠ []) (hwf : ∀ t ∈ ts, t.WF) :
+    multimergeFold .outer ts = some (mergeTables true ts) := mergeFold_outer ts hne hwf
+
+/-- `reduce(merge(how="inner"))` = the inner join of all tables -/
+theorem C18_multimerge_fold_inner (ts : List (KTable K V)) (hne : ts ≠ []) (hwf : ∀ t ∈ ts, t.WF) :
+    multimergeFold .inner ts = some (mergeTables false ts) := mergeFold_inner ts hne hwf
+
+/-- `how="left"`: the keys of the FIRST table, each with every table's cells for that key (missing where a table lacks it) -/
+theorem C18_multimerge_fold_left (t : KTable K V) (ts : List (KTable K V)) (hwf : ∀ u ∈ t :: ts, u.WF) :
+    multimergeFold .left (t :: ts) =
+      some { cols := (t :: ts).flatMap (·.cols), rows := t.keys.map fun k => (k, (t :: ts).flatMap fun u => cellsFor u k) } :=
+  mergeFold_left t ts hwf
+
+/-- `how="right"`: the keys of the LAST table; every intermediate result is well formed -/
+theorem C18_multimerge_fold_right_keys (t : KTable K V) (ts : List (KTable K V)) (hwf : ∀ u ∈ t :: ts, u.WF) :
+    ((multimergeFold .right (t :: ts)).map KTable.keys) = some ((t :: ts).getLast (List.cons_ne_nil _ _)).keys ∧
+    ∀ (how : JoinHow) (a b : KTable K V), a.WF → b.WF → (mergeTwo how a b).WF :=
+  ⟨mergeFold_right_keys t ts hwf, fun how a b ha hb => mergeTwo_wf how a b ha hb⟩
+
 end merge
 
 example : isvalidcdr3 Generated.aminoacids (.str "CASSLGQAYEQYF".toList) = .ok true := by
@@ -202,5 +227,13 @@ example : (multimerge true (some ["a".toList, "b".toList])
 example : (multimerge false none
       [({ cols := ["v".toList], rows := [(1, [some 10]), (2, [some 20])] } : KTable Nat Nat),
        { cols := ["w".toList], rows := [(2, [some 7]), (3, [some 8])] }]).rows = [(2, [some 20, some 7])] := by decide
+
+/-- left join of three tables: key 3 (only in the later tables) is absent, key 1 keeps the third table's cell although the second
+table lacks it — a balanced regrouping ((a, b), (c, d)) of four tables would lose such cells -/
+example : (multimergeFold .left
+      [({ cols := ["a".toList], rows := [(1, [some 10]), (2, [some 20])] } : KTable Nat Nat),
+       { cols := ["b".toList], rows := [(2, [some 7]), (3, [some 8])] },
+       { cols := ["c".toList], rows := [(1, [some 5]), (3, [some 6])] }]).map KTable.rows =
+    some [(1, [some 10, none, some 5]), (2, [some 20, some 7, none])] := by decide
 
 end Prs
